@@ -589,6 +589,65 @@ impl JsonTypedHandler for PAdapter {
 struct TwinRec {
     ok: bool,
     cb: u8,
+    variant: u32,
+}
+
+/// Every `StructError` variant a hand-written `RepeStruct` can return, by index.
+fn struct_error(k: u32, path: String) -> StructError {
+    let bad_json = || serde_json::from_str::<Value>("{").unwrap_err();
+    match k % 7 {
+        0 => StructError::InvalidPath { path },
+        1 => StructError::InvalidSubpath { path },
+        2 => StructError::BodyExpected { path },
+        3 => StructError::BodyUnexpected { path },
+        4 => StructError::Serialize { path, source: bad_json() },
+        5 => StructError::Deserialize { path, source: bad_json() },
+        _ => StructError::Execution { path, message: "scripted failure".into() },
+    }
+}
+
+/// Every `RepeError` variant (and every stable `io::ErrorKind`) a custom handler or middleware can return, by index.
+fn repe_error(k: u32) -> RepeError {
+    use std::io::ErrorKind as K;
+    const KINDS: &[K] = &[
+        K::NotFound, K::PermissionDenied, K::ConnectionRefused, K::ConnectionReset, K::ConnectionAborted, K::NotConnected, K::AddrInUse, K::AddrNotAvailable,
+        K::BrokenPipe, K::AlreadyExists, K::WouldBlock, K::InvalidInput, K::InvalidData, K::TimedOut, K::WriteZero, K::Interrupted, K::Unsupported,
+        K::UnexpectedEof, K::OutOfMemory, K::Other,
+    ];
+    match k % 32 {
+        0 => RepeError::VersionMismatch(9),
+        1 => RepeError::InvalidSpec(0x1234),
+        2 => RepeError::InvalidHeaderLength(7),
+        3 => RepeError::LengthMismatch { expected: 5, got: 3 },
+        4 => RepeError::BufferTooSmall { need: 10, have: 1 },
+        5 => RepeError::ResponseIdMismatch { expected: 1, got: 2 },
+        6 => RepeError::Json(serde_json::from_str::<Value>("{").unwrap_err()),
+        7 => RepeError::Beve(beve::from_slice::<Value>(&[0xff, 0xff, 0xff]).unwrap_err()),
+        8 => RepeError::UnknownEnumValue(77),
+        9 => RepeError::UnexpectedBodyFormat { expected: BodyFormat::Json, got: 9 },
+        10 => RepeError::ServerError { code: ErrorCode::Timeout, message: "upstream".into() },
+        11 => RepeError::MessageTooLarge { size: 10, limit: 5 },
+        j => RepeError::Io(std::io::Error::new(KINDS[(j as usize - 12) % KINDS.len()], "scripted io error")),
+    }
+}
+
+/// What `with_erased_handler` takes: full control of the answer – here an answer with its own query, or an error.
+struct ErasedLeaf {
+    ok: bool,
+    cb: u8,
+    variant: u32,
+}
+impl HandlerErased for ErasedLeaf {
+    fn handle(&self, req: &Message) -> Result<Message, RepeError> {
+        misbehave(self.cb);
+        if self.ok {
+            // sets its OWN response query when the variant is odd (the echo rule must leave it alone)
+            let b = Message::builder().id(req.header.id).body_bytes(req.body.clone()).body_format_code(req.header.body_format);
+            Ok(if self.variant % 2 == 1 { b.query_str("/own/query").query_format_code(1).build() } else { b.build() })
+        } else {
+            Err(repe_error(self.variant))
+        }
+    }
 }
 impl RepeStruct for TwinRec {
     fn repe_handle(&mut self, segments: &[&str], body: Option<Value>) -> Result<Option<Value>, StructError> {
@@ -596,7 +655,7 @@ impl RepeStruct for TwinRec {
         if self.ok {
             Ok(Some(json!({"segs": segments, "body": body})))
         } else {
-            Err(StructError::Execution { path: repe::structs::path_from_segments(segments), message: "scripted failure".into() })
+            Err(struct_error(self.variant, repe::structs::path_from_segments(segments)))
         }
     }
 }
@@ -638,6 +697,7 @@ fn body_format_of(trfmt: u8) -> BodyFormat {
 }
 
 struct TwinCfg<'a> {
+    rawcode: u32,
     kind: &'a str,
     path: &'a str,
     ok: bool,
@@ -648,6 +708,7 @@ struct TwinCfg<'a> {
 
 fn twin_router(c: &TwinCfg, blocking: bool, nmw: usize, order: u8, counts: &[Arc<AtomicU64>], seen: &Seen) -> Option<Router> {
     let (kind, path, ok, code, trfmt, cb) = (c.kind, c.path, c.ok, c.code, c.trfmt, c.cb);
+    let variant = c.rawcode;
     let mut r = Router::new();
     let add_mws = |mut r: Router| {
         for c in counts.iter().take(nmw) {
@@ -697,10 +758,11 @@ fn twin_router(c: &TwinCfg, blocking: bool, nmw: usize, order: u8, counts: &[Arc
             reg.register_function(below, move |p: Option<Value>| { misbehave(cb); if ok { Ok(json!({"p": p})) } else { Err(fail()) } }).ok()?;
             if trfmt % 2 == 0 { r.with_registry(mount, reg) } else { r.register_registry(mount, reg); r }
         }
+        ("erased", false) => r.with_erased_handler(path, Arc::new(ErasedLeaf { ok, cb, variant })),
         ("struct", false) => match trfmt % 3 {
-            0 => r.with_struct(mount, TwinRec { ok, cb }).0,
-            1 => { r.register_struct(mount, TwinRec { ok, cb }); r }
-            _ => r.with_struct_shared::<TwinRec, std::sync::RwLock<TwinRec>>(mount, Arc::new(std::sync::RwLock::new(TwinRec { ok, cb }))),
+            0 => r.with_struct(mount, TwinRec { ok, cb, variant }).0,
+            1 => { r.register_struct(mount, TwinRec { ok, cb, variant }); r }
+            _ => r.with_struct_shared::<TwinRec, std::sync::RwLock<TwinRec>>(mount, Arc::new(std::sync::RwLock::new(TwinRec { ok, cb, variant }))),
         },
         _ => return None,
     };
@@ -874,7 +936,8 @@ fn exec_twin(out: &mut Out, line: &str, w: &[&str]) -> (String, bool) {
     let ops = vec![line.to_string()];
     let counts: Vec<Arc<AtomicU64>> = (0..nmw).map(|_| Arc::new(AtomicU64::new(0))).collect();
     let seen: Seen = Arc::new(Mutex::new(vec![]));
-    let cfg = TwinCfg { kind, path: &tpath, ok, code, trfmt, cb };
+    let rawcode: u32 = w[9].parse().unwrap_or(4096);
+    let cfg = TwinCfg { rawcode, kind, path: &tpath, ok, code, trfmt, cb };
     let (Some(plain), Some(raw), Some(wrapped)) =
         (twin_router(&cfg, false, 0, 0, &counts, &seen), twin_router(&cfg, blocking, 0, 0, &counts, &seen), twin_router(&cfg, blocking, nmw, order, &counts, &seen))
     else {
@@ -1086,7 +1149,8 @@ fn exec_twin(out: &mut Out, line: &str, w: &[&str]) -> (String, bool) {
                         // earlier responses on the connection: none of these handlers sets a query of its own, so each
                         // must carry its own request's id and query (nothing left over from a neighbour)
                         for (d, resp) in decoy_reqs.iter().zip(all.iter()) {
-                            if resp.header.id != d.header.id || resp.query != d.query {
+                            let own_query = kind == "erased" && resp.query == b"/own/query";
+                            if resp.header.id != d.header.id || (resp.query != d.query && !own_query) {
                                 out.oracle_fail(&format!("router.twin.{}.{}.pipelined", kind, which), &format!("request id={} q={} on a shared connection was answered with id={} q={}", d.header.id, hex(&d.query), resp.header.id, hex(&resp.query)), &ops);
                             }
                         }
@@ -1111,7 +1175,7 @@ fn exec_twin(out: &mut Out, line: &str, w: &[&str]) -> (String, bool) {
     }
     // `with_handler` (JsonTypedAdapter) must gate body formats like `with_typed` does for the same input type
     if kind == "adapter" {
-        if let Some(tr) = twin_router(&TwinCfg { kind: "typed", path: &tpath, ok, code, trfmt, cb }, false, 0, 0, &counts, &seen) {
+        if let Some(tr) = twin_router(&TwinCfg { rawcode, kind: "typed", path: &tpath, ok, code, trfmt, cb }, false, 0, 0, &counts, &seen) {
             if let Some(th) = tr.get(&tpath) {
                 let is_gate_rej = |r: &Result<Result<Message, RepeError>, String>| matches!(r, Ok(Ok(m)) if m.header.ec == 4 && m.body.starts_with(b"Expected"));
                 let a = catch(|| hp.handle(&req));
@@ -1990,7 +2054,8 @@ impl Gen {
         let blocking = can_block && ov.blocking.unwrap_or_else(|| self.rng.chance(1, 2));
         let nmw = ov.nmw.unwrap_or_else(|| *self.rng.pick(&[0u64, 0, 1, 2, 3, 3, 7, 8, 9, 16, 17, 33]));
         let ok = self.rng.chance(3, 4);
-        let code = *self.rng.pick(&[4096u32, 5, 9, 6, 4, 0, 1, 8, 7]);
+        let code = if matches!(kind, "erased" | "struct") { self.rng.below(64) as u32 } else { *self.rng.pick(&[4096u32, 5, 9, 6, 4, 0, 1, 8, 7, 2, 3]) };
+        let ok = if kind == "erased" { self.rng.chance(1, 3) } else { ok };
         let order = ov.order.unwrap_or_else(|| self.rng.below(2));
         let voff = self.rng.below(9);
         // where the route lives: the usual short path, non-ASCII, long, deep
@@ -2105,7 +2170,7 @@ impl Gen {
     }
 }
 
-const KINDS: &[&str] = &["json", "jsonctx", "typed", "typedctx", "adapter", "slice", "sliceref", "registry", "struct"];
+const KINDS: &[&str] = &["json", "jsonctx", "typed", "typedctx", "adapter", "slice", "sliceref", "registry", "struct", "erased"];
 const BFMTS: &[u16] = &[0, 1, 1, 1, 2, 2, 3, 3, 4, 255, 4096, 65535];
 
 /// Does each uninterpreted decoder accept these bytes (for the kind's target type)?  The model
